@@ -474,6 +474,9 @@ def run(tier='quick'):
                           'held as written (so the operand is not a NaN) - a conversion whose truncated value does not '
                           'fit is undefined behaviour; callers use the saturating helper, whose body is the one '
                           'conversion site', floor=2)
+    U12 = chk.rule('U12', 'arithmetic on a beat index (beatgrid_marker::index, an int the caller chooses) is carried out in a '
+                          'wider type: no +, - or * whose result type is int has such an index as an operand (two indices '
+                          'INT_MAX apart, or 4 + INT_MAX, overflow - undefined behaviour)', floor=4)
     U9 = chk.rule('U9', 'every recursive function of the library descends along children() of the crate forest, '
                         'which rules T1 / T2 of C07 keep acyclic', floor=1)
     chk.assume('asserts are compiled out (the shipped build defines NDEBUG); allocation failure surfaces as an '
@@ -519,6 +522,22 @@ def run(tier='quick'):
                                       '%s with no dominating test that the container is non-empty: data() of an empty '
                                       'vector may be a null pointer, and passing a null pointer to %s is undefined '
                                       'behaviour even when the length is 0' % (inst, nm))
+        if k in ('BinaryOperator', 'CompoundAssignOperator') and n.get('opcode') in ('+', '-', '*', '+=', '-=', '*='):
+            ops = [strip(c_) for c_ in children(n)]
+            idx = [o for o in ops if o.get('kind') == 'MemberExpr' and o.get('name') == 'index' and
+                   (o.get('type') or '').replace('const ', '').strip() in ('int', 'int32_t') and children(o) and
+                   'beatgrid_marker' in (strip(children(o)[0]).get('type') or '')]
+            if idx and key not in seen:
+                seen.add(key)
+                rt = (n.get('type') or '').replace('const ', '').strip()
+                ct = (n.get('computeResultType') or rt).replace('const ', '').strip()
+                inst = '%s: %s on a beat index computed in %s' % (_short(func.qualname), n.get('opcode'), ct)
+                if ct in ('int', 'int32_t'):
+                    chk.violation(U12, '%s|beat index arithmetic in int' % _short(func.qualname), locstr(n),
+                                  '%s: beat indices are arbitrary ints supplied by the caller; their sum / difference '
+                                  'does not fit an int in general (signed overflow is undefined behaviour)' % inst)
+                else:
+                    chk.ok(U12, inst, locstr(n))
         if n.get('castKind') == 'FloatingToIntegral':
             if key not in seen:
                 seen.add(key)
@@ -681,6 +700,11 @@ def run(tier='quick'):
     from . import c07, c11
     c07.cycle_guard(prog, cg, eff, chk, U9)
     c07.cycle_guard_table(prog, cg, eff, chk, U9)
+    U13 = chk.rule('U13', 'a handle to a removed track or crate stays invalid: the id of a removed row is never handed out '
+                          'again (AUTOINCREMENT id column in every version the creating statement runs on, and no id '
+                          'computed from the ids currently stored)', floor=6)
+    c07.ids_never_reused(prog, cg, eff, chk, U13, what='crate')
+    c07.ids_never_reused(prog, cg, eff, chk, U13, what='track')
     c11.forest_encodings(prog, cg, eff, chk, U9, only=('sub', 'move'), paths=False)
     c07.moved_subtree_closure(prog, cg, eff, chk, U9)
     # 2.x: the closure the guard (and the isPersist triggers) read is defined by the recursive views;
